@@ -149,6 +149,14 @@ impl<B> PreparedRequest<B> {
     }
 }
 
+#[cfg(feature = "verif-hooks")]
+impl<B> PreparedRequest<B> {
+    /// Snapshot of the settings carried by this `PreparedRequest` (verification hook).
+    pub fn verif_settings(&self) -> crate::verif_hooks::SettingsSnapshot {
+        crate::verif_hooks::SettingsSnapshot::of(&self.base_settings)
+    }
+}
+
 impl<B: Body> PreparedRequest<B> {
     fn write_request<W>(&mut self, writer: W, url: &Url, proxy: Option<&Url>) -> Result
     where
